@@ -22,7 +22,18 @@ pub type Val = EvaluatedValue<W, R, T>;
 
 pub use crate::world::{perm_default, Limits, Perms, BIG, PERM_NAMES};
 
-fn permission_set(p: &Perms) -> PermissionSet {
+impl Scenario {
+    /// what the configured permission set must answer for each permission
+    pub fn effective_perms(&self) -> Perms {
+        let mut p = self.perms;
+        for (i, on) in &self.perm_ops {
+            p[*i] = Some(*on);
+        }
+        p
+    }
+}
+
+fn permission_set(p: &Perms, ops: &[(usize, bool)]) -> PermissionSet {
     let all = [&bp::NOW, &bp::PRINT, &bp::PRINT_DEBUG, &bp::RANDOM, &bp::REGEX, &bp::SLEEP];
     let mut s = PermissionSet::default();
     for (i, perm) in all.iter().enumerate() {
@@ -30,6 +41,13 @@ fn permission_set(p: &Perms) -> PermissionSet {
             Some(true) => s.allow(perm),
             Some(false) => s.forbid(perm),
             None => {}
+        }
+    }
+    for (i, on) in ops {
+        if *on {
+            s.allow(all[*i])
+        } else {
+            s.forbid(all[*i])
         }
     }
     s
@@ -60,6 +78,10 @@ pub struct Scenario {
     pub program: String,
     pub limits: Limits,
     pub perms: Perms,
+    /// further `allow` (true) / `forbid` (false) calls the host makes on the permission set, in
+    /// order, after the ones implied by `perms` (the last call for a permission wins)
+    #[serde(default)]
+    pub perm_ops: Vec<(usize, bool)>,
     pub env: EnvCfg,
     pub ops: Vec<HostOp>,
 }
@@ -72,6 +94,7 @@ impl Scenario {
             program: program.to_string(),
             limits,
             perms: [None; 6],
+            perm_ops: vec![],
             env: EnvCfg::default(),
             ops: standard_ops(),
         }
@@ -266,7 +289,7 @@ pub fn compile(text: &str, env: &EnvCfg) -> Result<Scope, Result<String, String>
     }
 }
 
-fn mk_limits(l: &Limits, perms: &Perms) -> RuntimeLimits {
+fn mk_limits(l: &Limits, perms: &Perms, perm_ops: &[(usize, bool)]) -> RuntimeLimits {
     RuntimeLimits {
         size_limit: l.size,
         depth_limit: l.depth,
@@ -274,7 +297,7 @@ fn mk_limits(l: &Limits, perms: &Perms) -> RuntimeLimits {
         ud_call_limit: l.ud_call,
         maximum_search: l.search,
         time_limit: l.time_ns.map(Duration::from_nanos),
-        permissions: permission_set(perms),
+        permissions: permission_set(perms, perm_ops),
     }
 }
 
@@ -283,10 +306,10 @@ pub fn run_compiled(scope: &Scope, sc: &Scenario) -> RunResult {
     world::install(sc.env.clone());
     world::with(|w| {
         w.limits = sc.limits.clone();
-        w.perms = sc.perms;
+        w.perms = sc.effective_perms();
         w.in_deadline_set = true;
     });
-    let rt: RTCell<W, R, T> = mk_limits(&sc.limits, &sc.perms).to_runtime(SimWriter, SimClock);
+    let rt: RTCell<W, R, T> = mk_limits(&sc.limits, &sc.perms, &sc.perm_ops).to_runtime(SimWriter, SimClock);
     world::with(|w| w.in_deadline_set = false);
 
     let mut slots: Vec<Option<RootEvaluationScope<'_, W, R, T>>> = Vec::new();
